@@ -9,6 +9,7 @@ import MotoModel.Proofs.BasicWords
 import MotoModel.Proofs.BasicReference
 import MotoModel.Proofs.BasicProgram
 import MotoModel.Proofs.ConvCli
+import MotoModel.Proofs.GenFn
 namespace Moto.C13
 open Moto Moto.Basic Moto.Spec
 
@@ -332,5 +333,14 @@ theorem cli_writes_the_program_beside_the_listing (w : Str → Option Str) (stem
     (hext : upper ext = Conv.str "LST") (hw : w (stem ++ 46 :: ext) = some text) (hc : convert text = some file) :
     Conv.lst2basOne w (stem ++ 46 :: ext) = { writes := [(stem ++ 46 :: Conv.str "bas", file)] } :=
   Conv.lst2bas_tokenized w stem ext text file hext hw hc
+
+
+/-- **the integer encoders of the source are the model's** — `bytesFromUint` / `toUint8` / `toUint16` of tokenizer.py (token codes:
+    one byte below 256, two bytes otherwise) and `ListingToTokenizedBasicConverter.toUint16` (link pointers, line numbers, the length
+    field), translated expression by expression from their AST on every run (Gen/Fn.lean), equal `Basic.bytesFromUint` / `Basic.u16`
+    for every argument -/
+theorem generated_uint_encoders (v : Nat) :
+    Gen.Fn.bytesFromUint v = bytesFromUint v ∧ Gen.Fn.toUint16 v = u16 v ∧ Gen.Fn.convToUint16 v = u16 v ∧ Gen.Fn.toUint8 v = [v % 256] :=
+  ⟨GenFn.bytesFromUint_eq v, GenFn.toUint16_eq v, GenFn.convToUint16_eq v, GenFn.toUint8_eq v⟩
 
 end Moto.C13
